@@ -1,1 +1,380 @@
+(* C03 — NUTS: the trajectory is doubled by leapfrog steps until a U-turn or a divergence (energy
+   error above 1000) occurs, and the next state is drawn uniformly among trajectory points whose
+   joint log-density exceeds the slice level, never from a subtree that stopped.  In particular
+   the next state is always the previous state or a slice-admissible point of the leapfrog
+   trajectory through it, and the per-transition acceptance statistic is the mean of
+   min(1, exp(energy change)) over the last doubling.
+   Model: Model/NUTS.v (build_tree = Hoffman & Gelman, Algorithm 6; doublings/transition = the loop
+   of NUTSChain::step).  Proofs: Proofs/NUTS.v.
+   Everything is stated for ARBITRARY oracles: `leap v z` one leapfrog step forward (v = true) or
+   backward (v = false), `joint` the joint log-density, `flt` the IEEE `<` (any boolean relation:
+   no order law is used), `noturn` the U-turn test, `take2`/`accept_top` the two uses of a
+   uniform variate.  No relation between `leap true` and `leap false` is assumed.
+   Vocabulary (Proofs/NUTS.v):
+     traj v z k   = iter k (leap v) z            the point k leapfrog steps from z in direction v
+     steps w recs = sum of tnalpha (d_tree d) over the records d of recs with d_dir d = w
+     tnsum recs   = sum of tn (d_tree d) over recs
+     asum / psum  = left-to-right / pairwise sum of alpha1 over a list of points.
+   A leaf l is slice-admissible when flt logu (joint l) = true and non-divergent when
+   flt (sub1000 logu) (joint l) = true.
+   The laws of take2 / accept_top in (3)-(4) are required only for uniforms satisfying `okU`
+   (think 0 <= u < 1), and the supplied variates are assumed to satisfy it; take
+   okU := fun _ => True for laws valid for every u.
+   Only statements, `exact`, Print Assumptions. *)
 From MiniMcmc Require Import Model.NUTSEval.
+From MiniMcmc Require Import Base.Util Model.NUTS Proofs.NUTS.
+Close Scope Q_scope.
+Close Scope R_scope.
+Close Scope Z_scope.
+Local Open Scope nat_scope.
+
+Section C03.
+  Context {P F A U : Type}.
+  Variable leap : bool -> P -> P.
+  Variable joint : P -> F.
+  Variable noturn : P -> P -> bool.
+  Variable flt : F -> F -> bool.
+  Variable sub1000 : F -> F.
+  Variable alpha1 : P -> A.
+  Variable aadd : A -> A -> A.
+  Variable take2 : U -> nat -> nat -> bool.
+  Variable logu : F.
+  Variable accept_top : U -> nat -> nat -> bool.
+
+  Notation tree := (@tree P A).
+  Notation dbl := (@dbl P A).
+  Notation merge := (merge noturn aadd take2).
+  Notation build_tree := (build_tree leap joint noturn flt sub1000 alpha1 aadd take2 logu).
+  Notation visited := (visited leap joint noturn flt sub1000 alpha1 aadd take2 logu).
+  Notation transition :=
+    (transition leap joint noturn flt sub1000 alpha1 aadd take2 logu accept_top).
+  Notation traj := (traj leap).
+
+  (* (1) A call of build_tree at depth j from z in direction v visits the points leap^1 z, ...,
+     leap^m z in this order, 1 <= m <= 2^j; the tree counts m leaves, its far end is leap^m z and
+     its near end leap^1 z; a sub-tree that did not stop is complete (m = 2^j). *)
+  Theorem C03_leaves : forall j z v us t us',
+    build_tree j z v us = Some (t, us') ->
+    exists m, 1 <= m <= 2 ^ j /\
+      visited j z v us = map (traj v z) (seq 1 m) /\
+      tnalpha t = m /\
+      (if v then zp t else zm t) = traj v z m /\
+      (if v then zm t else zp t) = traj v z 1 /\
+      (ts t = true -> m = 2 ^ j).
+  Proof. exact (build_tree_leaves leap joint noturn flt sub1000 alpha1 aadd take2 logu). Qed.
+
+  (* (2) n' is the number of slice-admissible visited leaves, n_alpha the number of visited
+     leaves; a sub-tree that did not stop contains no divergent leaf (energy error above 1000),
+     and, from depth 1 on, passed the U-turn test on its two ends. *)
+  Theorem C03_counts : forall j z v us t us',
+    build_tree j z v us = Some (t, us') ->
+    tn t = length (filter (fun l => flt logu (joint l)) (visited j z v us)) /\
+    tnalpha t = length (visited j z v us) /\
+    (ts t = true -> forall l, In l (visited j z v us) -> flt (sub1000 logu) (joint l) = true).
+  Proof. exact (build_tree_counts leap joint noturn flt sub1000 alpha1 aadd take2 logu). Qed.
+
+  Theorem C03_not_stopped_no_uturn : forall k z v us t us',
+    build_tree (S k) z v us = Some (t, us') -> ts t = true -> noturn (zm t) (zp t) = true.
+  Proof. exact (build_tree_noturn leap joint noturn flt sub1000 alpha1 aadd take2 logu). Qed.
+
+  (* the acceptance statistic: alpha' is the sum of the per-leaf terms min(1, exp(energy change))
+     over exactly the visited leaves, so alpha'/n_alpha' of the last doubling is their mean *)
+  Section C03_alpha.
+    Variable azero : A.
+    Hypothesis aadd_assoc : forall a b c, aadd a (aadd b c) = aadd (aadd a b) c.
+
+    Theorem C03_alpha_sum : forall j z v us t us',
+      build_tree j z v us = Some (t, us') ->
+      talpha t = asum alpha1 aadd azero (visited j z v us) /\
+      visited j z v us <> [] /\ tnalpha t = length (visited j z v us).
+    Proof.
+      exact (build_tree_alpha_sum leap joint noturn flt sub1000 alpha1 aadd take2 logu azero
+               aadd_assoc).
+    Qed.
+  End C03_alpha.
+
+  (* ... and with NO law on the addition (floating point): alpha' is the pairwise sum, split at
+     2^(j-1), of the same terms *)
+  Theorem C03_alpha_pairwise : forall j z v us t us' (dflt : A),
+    build_tree j z v us = Some (t, us') ->
+    talpha t = psum alpha1 aadd j (visited j z v us) dflt.
+  Proof. exact (build_tree_talpha_pairwise leap joint noturn flt sub1000 alpha1 aadd take2 logu). Qed.
+
+  (* the uniforms: one per merge (m - 1 of them, a prefix of the supply); enough uniforms and the
+     call succeeds; and they influence nothing but the candidate *)
+  Theorem C03_uniforms_consumed : forall j z v us t us',
+    build_tree j z v us = Some (t, us') ->
+    exists used, us = used ++ us' /\ S (length used) = tnalpha t.
+  Proof. exact (build_tree_consumes leap joint noturn flt sub1000 alpha1 aadd take2 logu). Qed.
+
+  Theorem C03_build_tree_total : forall j z v us,
+    2 ^ j - 1 <= length us -> build_tree j z v us <> None.
+  Proof. exact (build_tree_total leap joint noturn flt sub1000 alpha1 aadd take2 logu). Qed.
+
+  Theorem C03_uniforms_only_candidate : forall j z v us1 us2 t1 r1 t2 r2,
+    build_tree j z v us1 = Some (t1, r1) -> build_tree j z v us2 = Some (t2, r2) ->
+    zm t1 = zm t2 /\ zp t1 = zp t2 /\ tn t1 = tn t2 /\ ts t1 = ts t2 /\
+    talpha t1 = talpha t2 /\ tnalpha t1 = tnalpha t2 /\
+    visited j z v us1 = visited j z v us2.
+  Proof. exact (build_tree_uniforms_only_cand leap joint noturn flt sub1000 alpha1 aadd take2 logu). Qed.
+
+  (* (6) the merge step of Algorithm 6: the counts add up and the second half's candidate
+     replaces the first's exactly when take2 u n1 n2 says so (u < n2 / (n1 + n2)) *)
+  Theorem C03_merge_rule : forall v u (t1 t2 : tree),
+    tn (merge v u t1 t2) = tn t1 + tn t2 /\
+    (take2 u (tn t1) (tn t2) = true -> cand (merge v u t1 t2) = cand t2) /\
+    (take2 u (tn t1) (tn t2) = false -> cand (merge v u t1 t2) = cand t1).
+  Proof. exact (merge_rule noturn aadd take2). Qed.
+
+  (* the candidate is always one of the visited leaves *)
+  Theorem C03_candidate_visited : forall j z v us t us',
+    build_tree j z v us = Some (t, us') ->
+    In (cand t) (visited j z v us) /\
+    exists k, 1 <= k <= tnalpha t /\ cand t = traj v z k.
+  Proof. exact (build_tree_cand_visited leap joint noturn flt sub1000 alpha1 aadd take2 logu). Qed.
+
+  (* ---- the doubling loop, with no hypothesis on the oracles ---- *)
+
+  (* (4a) the trajectory is one line through z0: after the loop the backward end is
+     leap_back^a z0 and the forward end leap_fwd^b z0, a and b the numbers of backward / forward
+     leapfrog steps recorded; doubling number i (depth i) was built from the then-current end in
+     its direction, s steps from z0, and visited exactly the points s+1, ..., s+m on that side;
+     between two doublings the U-turn test on the two ends held. *)
+  Theorem C03_trajectory_line : forall fuel z0 dirs tus accs st recs dr tr ar,
+    transition fuel z0 dirs tus accs = Some (st, recs, dr, tr, ar) ->
+    lo st = traj false z0 (steps false recs) /\
+    hi st = traj true z0 (steps true recs) /\
+    (forall i d, nth_error recs i = Some d ->
+       let v := d_dir d in
+       let s := steps v (firstn i recs) in
+       exists us us',
+         build_tree i (traj v z0 s) v us = Some (d_tree d, us') /\
+         visited i (traj v z0 s) v us = map (traj v z0) (seq (1 + s) (tnalpha (d_tree d))) /\
+         (if v then zp (d_tree d) else zm (d_tree d)) = traj v z0 (s + tnalpha (d_tree d)) /\
+         (if v then zm (d_tree d) else zp (d_tree d)) = traj v z0 (s + 1)) /\
+    (forall i, S i < length recs ->
+       noturn (traj false z0 (steps false (firstn (S i) recs)))
+              (traj true z0 (steps true (firstn (S i) recs))) = true).
+  Proof.
+    exact (transition_line leap joint noturn flt sub1000 alpha1 aadd take2 logu accept_top).
+  Qed.
+
+  (* (5) shape of the loop: one record per doubling; the point count starts at 1 (z0) and adds
+     every n'; every doubling but the last did not stop, and the last one stopped or made the
+     whole trajectory U-turn; doubling number i visits at most 2^i leaves (exactly 2^i unless
+     it stopped) and is adopted iff it did not stop and accept_top u n' n holds, n the
+     count before it. *)
+  Theorem C03_loop_shape : forall fuel z0 dirs tus accs st recs dr tr ar,
+    transition fuel z0 dirs tus accs = Some (st, recs, dr, tr, ar) ->
+    depth st = length recs /\
+    ntot st = 1 + tnsum recs /\
+    (exists pre d, recs = pre ++ [d] /\
+       (forall d', In d' pre -> ts (d_tree d') = true) /\
+       ts (d_tree d) && noturn (lo st) (hi st) = false) /\
+    (forall i d, nth_error recs i = Some d ->
+       1 <= tnalpha (d_tree d) <= 2 ^ i /\
+       (ts (d_tree d) = true -> tnalpha (d_tree d) = 2 ^ i) /\
+       exists ac, d_accepted d =
+         ts (d_tree d) && accept_top ac (tn (d_tree d)) (1 + tnsum (firstn i recs))).
+  Proof.
+    exact (transition_shape leap joint noturn flt sub1000 alpha1 aadd take2 logu accept_top).
+  Qed.
+
+  (* (4b) a candidate is never adopted from a doubling that stopped; the next state is the
+     candidate of the LAST adopted doubling, or the previous state if there is none; and every
+     recorded candidate lies on the trajectory, on the side of its doubling *)
+  Theorem C03_never_from_stopped : forall fuel z0 dirs tus accs st recs dr tr ar,
+    transition fuel z0 dirs tus accs = Some (st, recs, dr, tr, ar) ->
+    (forall d, In d recs -> d_accepted d = true -> ts (d_tree d) = true) /\
+    cur st = match find d_accepted (rev recs) with
+             | Some d => cand (d_tree d)
+             | None => z0
+             end.
+  Proof.
+    exact (transition_never_from_stopped leap joint noturn flt sub1000 alpha1 aadd take2 logu
+             accept_top).
+  Qed.
+
+  Theorem C03_candidates_on_trajectory : forall fuel z0 dirs tus accs st recs dr tr ar,
+    transition fuel z0 dirs tus accs = Some (st, recs, dr, tr, ar) ->
+    forall d, In d recs ->
+    exists k, 1 <= k <= steps (d_dir d) recs /\ cand (d_tree d) = traj (d_dir d) z0 k.
+  Proof.
+    exact (transition_cand_traj leap joint noturn flt sub1000 alpha1 aadd take2 logu accept_top).
+  Qed.
+
+  (* ---- under the laws of the two uses of a uniform ---- *)
+  Section C03_laws.
+    Variable okU : U -> Prop.
+    (* a half without admissible point never supplies the candidate (u < 0/n is false) *)
+    Hypothesis Htake0 : forall u n1, okU u -> take2 u n1 0 = false.
+    (* if only the second half has admissible points its candidate is taken (u < 1) *)
+    Hypothesis Htake1 : forall u n2, okU u -> take2 u 0 (S n2) = true.
+
+    (* (3) as soon as the sub-tree contains an admissible point its candidate is one *)
+    Theorem C03_candidate_admissible : forall j z v us t us',
+      Forall okU us ->
+      build_tree j z v us = Some (t, us') ->
+      In (cand t) (visited j z v us) /\
+      (0 < tn t -> flt logu (joint (cand t)) = true).
+    Proof.
+      exact (build_tree_cand leap joint noturn flt sub1000 alpha1 aadd take2 logu okU Htake0 Htake1).
+    Qed.
+
+    (* a doubling without admissible point is never adopted (u < min(1, 0/n) is false) *)
+    Hypothesis Hacc0 : forall u n, okU u -> accept_top u 0 n = false.
+
+    (* (4c) an adopted doubling did not stop, contains an admissible point, and its candidate is
+       a slice-admissible point of the trajectory *)
+    Theorem C03_adopted : forall fuel z0 dirs tus accs st recs dr tr ar,
+      Forall okU tus -> Forall okU accs ->
+      transition fuel z0 dirs tus accs = Some (st, recs, dr, tr, ar) ->
+      forall d, In d recs -> d_accepted d = true ->
+      ts (d_tree d) = true /\ 0 < tn (d_tree d) /\
+      exists k, 1 <= k <= steps (d_dir d) recs /\
+        cand (d_tree d) = traj (d_dir d) z0 k /\ flt logu (joint (cand (d_tree d))) = true.
+    Proof.
+      exact (transition_accepted leap joint noturn flt sub1000 alpha1 aadd take2 logu accept_top
+               okU Htake0 Htake1 Hacc0).
+    Qed.
+
+    (* (4d) the next state is the previous state, or a slice-admissible point k >= 1 leapfrog
+       steps from it in one of the two directions, inside the final trajectory [lo, hi] *)
+    Theorem C03_next_state : forall fuel z0 dirs tus accs st recs dr tr ar,
+      Forall okU tus -> Forall okU accs ->
+      transition fuel z0 dirs tus accs = Some (st, recs, dr, tr, ar) ->
+      cur st = z0 \/
+      exists v k, 1 <= k <= steps v recs /\ cur st = traj v z0 k /\
+                  flt logu (joint (cur st)) = true.
+    Proof.
+      exact (transition_next_state leap joint noturn flt sub1000 alpha1 aadd take2 logu accept_top
+               okU Htake0 Htake1 Hacc0).
+    Qed.
+  End C03_laws.
+End C03.
+
+(* ---- Non-vacuity ---- *)
+(* Points are trajectory indices (Z), joint i = -i^2, slice level -10 (admissible: i^2 < 10, i.e.
+   |i| <= 3), U-turn rule: the two ends are less than 6 apart; uniforms are percentages (taken
+   mod 100), the per-leaf acceptance term is 1 and the addition is Z.add. *)
+Definition ex_leap (v : bool) (i : Z) : Z := if v then (i + 1)%Z else (i - 1)%Z.
+Definition ex_joint (i : Z) : Z := (- (i * i))%Z.
+Definition ex_noturn (a b : Z) : bool := (b - a <? 6)%Z.
+Definition ex_sub1000 (x : Z) : Z := (x - 1000)%Z.
+Definition ex_alpha1 (_ : Z) : Z := 1%Z.
+Definition ex_take2 (u n1 n2 : nat) : bool := (u mod 100) * Nat.max (n1 + n2) 1 <? 100 * n2.
+Definition ex_accept (u n' n : nat) : bool := (u mod 100) * n <? 100 * n'.
+Definition ex_logu : Z := (-10)%Z.
+Definition ex_build :=
+  build_tree ex_leap ex_joint ex_noturn Z.ltb ex_sub1000 ex_alpha1 Z.add ex_take2 ex_logu.
+Definition ex_visited :=
+  visited ex_leap ex_joint ex_noturn Z.ltb ex_sub1000 ex_alpha1 Z.add ex_take2 ex_logu.
+Definition ex_transition :=
+  transition ex_leap ex_joint ex_noturn Z.ltb ex_sub1000 ex_alpha1 Z.add ex_take2 ex_logu ex_accept.
+
+(* the three laws hold for every uniform (okU := fun _ => True) *)
+Example C03_laws_satisfiable :
+  (forall u n1, True -> ex_take2 u n1 0 = false) /\
+  (forall u n2, True -> ex_take2 u 0 (S n2) = true) /\
+  (forall u n, True -> ex_accept u 0 n = false) /\
+  (forall a b c : Z, (a + (b + c) = a + b + c)%Z).
+Proof.
+  unfold ex_take2, ex_accept. split; [|split; [|split]].
+  - intros u n1 _. apply Nat.ltb_ge. lia.
+  - intros u n2 _. apply Nat.ltb_lt.
+    assert (Hm : u mod 100 < 100) by (apply Nat.mod_upper_bound; lia).
+    rewrite Nat.add_0_l, Nat.max_l by lia. nia.
+  - intros u n _. apply Nat.ltb_ge. lia.
+  - intros; lia.
+Qed.
+
+(* depth 2 forward from 0: leaves 1,2,3,4; three admissible (4^2 >= 10); not stopped; sum of the
+   acceptance terms 4 over 4 leaves; with uniforms 70, 20, 90 the candidate is leaf 1 *)
+Example C03_build_tree_concrete :
+  ex_visited 2 0%Z true [70; 20; 90] = [1%Z; 2%Z; 3%Z; 4%Z] /\
+  ex_build 2 0%Z true [70; 20; 90] =
+    Some ({| zm := 1%Z; zp := 4%Z; cand := 1%Z; tn := 3; ts := true;
+             talpha := 4%Z; tnalpha := 4 |}, []) /\
+  option_map (fun r => cand (fst r)) (ex_build 2 0%Z true [10; 20; 30]) = Some 3%Z /\
+  ex_build 2 0%Z true [70; 20] = None.
+Proof. repeat split; vm_compute; reflexivity. Qed.
+
+(* depth 4 forward from 0: the first half (leaves 1..8) U-turns (8 - 1 >= 6), so the call
+   stops after 8 < 16 leaves with the stop flag down and the remaining uniforms untouched *)
+Example C03_build_tree_stops :
+  ex_visited 4 0%Z true [0; 0; 0; 0; 0; 0; 0; 0; 0; 0] = [1; 2; 3; 4; 5; 6; 7; 8]%Z /\
+  option_map (fun r => (ts (fst r), tnalpha (fst r), tn (fst r), snd r))
+    (ex_build 4 0%Z true [0; 0; 0; 0; 0; 0; 0; 0; 0; 0]) = Some (false, 8, 3, [0; 0; 0]).
+Proof. repeat split; vm_compute; reflexivity. Qed.
+
+(* full transitions from 0: (current, lo, hi, point count, per doubling (direction, candidate, n',
+   n_alpha, not stopped, adopted), leftover directions / tree uniforms / acceptance uniforms) *)
+Definition ex_summary (r : option (@nst Z * list (@dbl Z Z) * list bool * list nat * list nat)) :=
+  option_map (fun r => let '(st, recs, dr, tr, ar) := r in
+    (cur st, lo st, hi st, ntot st,
+     map (fun d => (d_dir d, cand (d_tree d), tn (d_tree d), tnalpha (d_tree d), ts (d_tree d),
+                    d_accepted d)) recs, dr, tr, ar)) r.
+
+(* forward, backward, forward: leaves 1 | -1,-2 | 2,3,4,5; the loop ends because the whole
+   trajectory [-2, 5] U-turns (7 >= 6); every doubling adopted; next state 3, admissible *)
+Example C03_transition_concrete :
+  ex_summary (ex_transition 10 0%Z [true; false; true; true] [40; 10; 20; 30; 77] [5; 60; 30; 99])
+  = Some (3%Z, (-2)%Z, 5%Z, 6,
+          [(true, 1%Z, 1, 1, true, true); (false, (-2)%Z, 2, 2, true, true);
+           (true, 3%Z, 2, 4, true, true)], [true], [77], [99]) /\
+  Z.ltb ex_logu (ex_joint 3) = true /\
+  3%Z = traj ex_leap true 0%Z 3 /\
+  (* third doubling refused (70/100 >= 2/4): the next state is the candidate of the second *)
+  ex_summary (ex_transition 10 0%Z [true; false; true; true] [40; 10; 20; 30; 77] [5; 60; 70; 99])
+  = Some ((-2)%Z, (-2)%Z, 5%Z, 6,
+          [(true, 1%Z, 1, 1, true, true); (false, (-2)%Z, 2, 2, true, true);
+           (true, 3%Z, 2, 4, true, false)], [true], [77], [99]) /\
+  Z.ltb ex_logu (ex_joint (-2)) = true /\
+  (-2)%Z = traj ex_leap false 0%Z 2.
+Proof. repeat split; vm_compute; reflexivity. Qed.
+
+(* three backward doublings: the last one (leaves -4..-7) has no admissible point, is not
+   adopted although it did not stop, and its (inadmissible) candidate -4 is not taken *)
+Example C03_transition_no_admissible_point :
+  ex_summary (ex_transition 10 0%Z [false; false; false; true] [40; 10; 20; 30; 77] [5; 60; 70; 99])
+  = Some ((-3)%Z, (-7)%Z, 0%Z, 4,
+          [(false, (-1)%Z, 1, 1, true, true); (false, (-3)%Z, 2, 2, true, true);
+           (false, (-4)%Z, 0, 4, true, false)], [true], [77], [99]) /\
+  Z.ltb ex_logu (ex_joint (-4)) = false /\
+  Z.ltb ex_logu (ex_joint (-3)) = true /\
+  (* variates or fuel exhausted: no result *)
+  ex_transition 10 0%Z [true; false] [40; 10; 20; 30; 77] [5; 60; 70; 99] = None /\
+  ex_transition 2 0%Z [true; false; true; true] [40; 10; 20; 30; 77] [5; 60; 30; 99] = None.
+Proof. repeat split; vm_compute; reflexivity. Qed.
+
+(* the hypotheses of (4d) are jointly satisfiable: the theorem applies to this instance *)
+Example C03_next_state_applies : forall fuel z0 dirs tus accs st recs dr tr ar,
+  ex_transition fuel z0 dirs tus accs = Some (st, recs, dr, tr, ar) ->
+  cur st = z0 \/
+  exists v k, 1 <= k <= steps v recs /\ cur st = traj ex_leap v z0 k /\
+              Z.ltb ex_logu (ex_joint (cur st)) = true.
+Proof.
+  intros fuel z0 dirs tus accs st recs dr tr ar H.
+  destruct C03_laws_satisfiable as (H0 & H1 & H2 & _).
+  exact (C03_next_state ex_leap ex_joint ex_noturn Z.ltb ex_sub1000 ex_alpha1 Z.add ex_take2
+           ex_logu ex_accept (fun _ => True) H0 H1 H2 fuel z0 dirs tus accs st recs dr tr ar
+           (Forall_trivial tus) (Forall_trivial accs) H).
+Qed.
+
+Print Assumptions C03_leaves.
+Print Assumptions C03_counts.
+Print Assumptions C03_not_stopped_no_uturn.
+Print Assumptions C03_alpha_sum.
+Print Assumptions C03_alpha_pairwise.
+Print Assumptions C03_uniforms_consumed.
+Print Assumptions C03_build_tree_total.
+Print Assumptions C03_uniforms_only_candidate.
+Print Assumptions C03_merge_rule.
+Print Assumptions C03_candidate_visited.
+Print Assumptions C03_trajectory_line.
+Print Assumptions C03_loop_shape.
+Print Assumptions C03_never_from_stopped.
+Print Assumptions C03_candidates_on_trajectory.
+Print Assumptions C03_candidate_admissible.
+Print Assumptions C03_adopted.
+Print Assumptions C03_next_state.
